@@ -166,6 +166,7 @@ type c05ContCase struct {
 	Dup    bool     `json:"dup,omitempty"` // every dependency declared twice
 	Opt    bool     `json:"opt,omitempty"` // every (non-group) dependency declared as an optional In field
 	Rev    bool     `json:"rev,omitempty"` // registrations made in descending id order (consumers of higher ids first)
+	GName  bool     `json:"group_field_named,omitempty"` // group fields additionally carry a name tag (the field is still a group dependency)
 	N      int      `json:"n"`
 	Mask   uint32   `json:"mask"`
 	Target []string `json:"target_forms"` // per node: plain | keyed | group
@@ -193,6 +194,9 @@ func (c c05ContCase) spec() kit.Spec {
 				allPlain = false
 			case "group":
 				d.Group = "g"
+				if c.GName {
+					d.Key = "x"
+				}
 				allPlain = false
 			}
 			if c.Opt && d.Group == "" {
@@ -386,7 +390,7 @@ func c05Containers(r *mc.Report, n int, uniform bool, lifes []string, shard, nsh
 				}
 				f.F["clause"] = "circular-not-classifiable"
 			}
-			r.Violate(f.F, f.Detail+fmt.Sprintf("\n  services=%d edges=%v target-forms=%v shape=%s lifetime=%s optional=%v reversed-registration=%v", c.N, adjOf(c.N, c.Mask, false), c.Target, c.Shape, c.Life, c.Opt, c.Rev), c)
+			r.Violate(f.F, f.Detail+fmt.Sprintf("\n  services=%d edges=%v target-forms=%v shape=%s lifetime=%s optional=%v reversed-registration=%v group-fields-named=%v", c.N, adjOf(c.N, c.Mask, false), c.Target, c.Shape, c.Life, c.Opt, c.Rev, c.GName), c)
 		}
 		v := "ok"
 		if e.BuildErr != nil {
@@ -441,6 +445,9 @@ func c05Containers(r *mc.Report, n int, uniform bool, lifes []string, shard, nsh
 					run(c05ContCase{N: n, Mask: mask, Target: t, Shape: "in", Life: life, Opt: true})
 					run(c05ContCase{N: n, Mask: mask, Target: t, Shape: "in", Life: life, Opt: true, Rev: true})
 				}
+				if mask != 0 && n <= 3 && strings.Contains(strings.Join(t, ","), "group") {
+					run(c05ContCase{N: n, Mask: mask, Target: t, Shape: "in", Life: life, GName: true})
+				}
 				allPlain := true
 				for _, f := range t {
 					if f != "plain" {
@@ -463,7 +470,7 @@ var _ = graph.NewDependencyGraph
 func init() {
 	mc.Register(&mc.Check{
 		Prop:        "C05",
-		Rule:        "graph component: ALL 2^16 digraphs on 4 labelled nodes (self-loops included; all 2^9 on 3 nodes too) x {AddProviderDeferred all + DetectCycles (asked twice), AddProvider one by one} x dependency-list order {ascending, descending} x canonical / reversed base map order, plus every single non-identity permutation of one map range (order deviation 1) for all 3-node graphs (quick) / additionally all 4-node graphs with deferred adds and ascending lists (thorough); verdicts compared with a colour-DFS on the plain digraph, reported paths checked edge by edge. Container: all digraphs on <=3 services x every per-target dependency form (plain / keyed / group; In-struct and positional consumers; In-struct also with every non-group edge declared optional, and with the registrations made in ascending and descending order, so that consumers are registered before and after what they consume) x 3 uniform lifetimes, and all digraphs on 4 services x uniform forms; Build verdict, error class through BuildError, reported path, and termination of resolving every identity; plus cycles running through a two-output registration (multiple returns / result object / two aliases x plain / keyed / group edge x lifetime) one of whose outputs was removed before Build. distinct = distinct (size, forms, verdict) classes.",
+		Rule:        "graph component: ALL 2^16 digraphs on 4 labelled nodes (self-loops included; all 2^9 on 3 nodes too) x {AddProviderDeferred all + DetectCycles (asked twice), AddProvider one by one} x dependency-list order {ascending, descending} x canonical / reversed base map order, plus every single non-identity permutation of one map range (order deviation 1) for all 3-node graphs (quick) / additionally all 4-node graphs with deferred adds and ascending lists (thorough); verdicts compared with a colour-DFS on the plain digraph, reported paths checked edge by edge. Container: all digraphs on <=3 services x every per-target dependency form (plain / keyed / group; In-struct and positional consumers; In-struct also with every non-group edge declared optional, and with the registrations made in ascending and descending order, so that consumers are registered before and after what they consume; group fields also carrying an additional name tag) x 3 uniform lifetimes, and all digraphs on 4 services x uniform forms; Build verdict, error class through BuildError, reported path, and termination of resolving every identity; plus cycles running through a two-output registration (multiple returns / result object / two aliases x plain / keyed / group edge x lifetime) one of whose outputs was removed before Build. distinct = distinct (size, forms, verdict) classes.",
 		Assume:      []string{"the property's 'randomly beyond 4 nodes' part is not covered: the claim is all graphs with <= 4 nodes"},
 		MinOutcomes: 4,
 		Jobs: func(tier string) []mc.Job {
